@@ -49,17 +49,14 @@ Scan:
 """
 from __future__ import annotations
 
-from fractions import Fraction
-
 import z3
 
 from .. import core as C
 from .. import tensor as T
-from ..core import BOOL, INT, KEY, REAL, ROW, Builtin, Obj, Opaque, PyRaise, Sym, Unsupported
+from ..core import INT, KEY, REAL, Builtin, Obj, Opaque, PyRaise, Sym, Unsupported
 from ..tensor import Tensor
 from . import LIB
 from . import jax_model as JM
-from . import nnx_model as NM
 from .jax_model import tt, vmap_call
 from .nnx_model import OPTSTATE, PARAMS, StateVal, leaf_nets
 
